@@ -17,7 +17,7 @@ PROPERTY = 'C20'
 _OUT = os.environ.get('VERIF_OUT_DIR')  # self-tests redirect their output away from /verif
 EVIDENCE = os.path.join(_OUT or os.path.join(HERE, 'evidence'), PROPERTY + '.json')
 REPLAYS = os.path.join(_OUT, 'replays') if _OUT else os.path.join(HERE, 'replays')
-KNOWN = os.path.join(HERE, 'KNOWN_FINDINGS.txt')
+KNOWN = os.environ.get('VERIF_KNOWN_FILE') or os.path.join(HERE, 'KNOWN_FINDINGS.txt')  # override: self-tests only
 _perf = runner._perf
 
 TIERS = {
